@@ -429,10 +429,7 @@ class Run:
 
     def entry_files(self):
         d = os.path.join(self.run_dir, self.cwd_tag, CACHE_DIR)
-        try:
-            return sorted(os.listdir(d))
-        except FileNotFoundError:
-            return []
+        return _list_files(d) if os.path.isdir(d) else []
 
     # -- fault hook --------------------------------------------------------------
     def hook(self, disk, idx, kind, rel, info):
@@ -942,14 +939,21 @@ def _plain_store_failed(e, what):
     return Violation("never-fatal", "exception", f"{what} raised {type(e).__name__}: {str(e)[:200]}", {"exc": type(e).__name__})
 
 
+def _list_files(root=CACHE_DIR):
+    """Regular files below the cache directory, as paths relative to it."""
+    out = []
+    for dp, _dn, fn in os.walk(root):
+        for f in fn:
+            out.append(os.path.relpath(os.path.join(dp, f), root))
+    return sorted(out)
+
+
 def _clear_files(keep=()):
-    """Remove regular files in the cache directory (not sub-directories: what
-    the code under test put there stays, as it would in a user's directory)."""
-    for f in os.listdir(CACHE_DIR):
-        p = os.path.join(CACHE_DIR, f)
-        if f in keep or os.path.isdir(p):
-            continue
-        os.unlink(p)
+    """Remove the regular files below the cache directory (directories stay:
+    what the code under test created there stays, as in a user's directory)."""
+    for f in _list_files():
+        if f not in keep:
+            os.unlink(os.path.join(CACHE_DIR, f))
 
 
 def _store_entry(spec, run_dir):
@@ -971,7 +975,7 @@ def _store_entry(spec, run_dir):
         journal = list(disk.journal)
     finally:
         disk.uninstall()
-    files = sorted(os.listdir(CACHE_DIR))
+    files = _list_files()
     return args, exp, journal, files
 
 
@@ -1024,6 +1028,7 @@ def execute_enum_trunc(job):
             for L in range(lo, hi):
                 _clear_files()
                 for g, d in contents.items():
+                    os.makedirs(os.path.dirname(os.path.join(CACHE_DIR, g)), exist_ok=True)
                     with open(os.path.join(CACHE_DIR, g), "wb") as fh:
                         fh.write(d if g != f else d[:L])
                 out["case"] = {"kind": "enum_trunc", "spec": spec, "lo": L, "hi": L + 1}
@@ -1123,6 +1128,7 @@ def execute_enum_journal(job):
                 _clear_files()
                 for rel, data in img2.items():
                     if rel.startswith(CACHE_DIR + "/"):
+                        os.makedirs(os.path.dirname(rel), exist_ok=True)
                         with open(rel, "wb") as fh:
                             fh.write(data)
                 out["case"] = {"kind": "enum_journal", "spec": spec, "only": [p, variant, placed]}
@@ -1259,7 +1265,7 @@ def execute_many(job):
             if cmpres not in (None, "inexact"):
                 raise Violation("transparent", "wrong-result", f"request {k} of {n}: field {cmpres[0]}: {cmpres[1]}", {"cause": ["many-entries"]})
             out["cases"] += 1
-        out["entries"] = len(os.listdir(CACHE_DIR))
+        out["entries"] = len(_list_files())
     except Violation as v:
         out["status"] = "violation"
         out["violation"] = v.as_dict()
